@@ -1171,6 +1171,13 @@ static IDLE: StdMutex<Vec<Arc<PoolThread>>> = StdMutex::new(Vec::new());
 
 /// Run `job` on a pooled OS thread; returns that thread's handle.
 pub fn pool_run(job: Job) -> std::thread::Thread {
+  pool_run_named(job, None)
+}
+
+/// `name`: the name the code under test gave the thread (`thread::Builder::name`); honoured when every
+/// controlled thread gets a fresh OS thread - a pooled thread cannot be renamed, which is why
+/// `instrument.py` switches pooling off for a tree that looks at thread names
+pub fn pool_run_named(job: Job, name: Option<String>) -> std::thread::Thread {
   // the code under test uses thread-local state: a pooled OS thread would carry it from one
   // execution into the next (and from one controlled thread to another) - every controlled thread
   // then gets a fresh OS thread (slower, deterministic)
@@ -1178,7 +1185,7 @@ pub fn pool_run(job: Job) -> std::thread::Thread {
   if *NO_POOL.get_or_init(|| std::env::var("RXVERIF_NO_POOL").map_or(false, |v| v == "1")) {
     let h = std::thread::Builder::new()
       .stack_size(1024 * 1024)
-      .name("rxverif-fresh".into())
+      .name(name.unwrap_or_else(|| "rxverif-fresh".into()))
       .spawn(move || {
         let _ = catch_unwind(AssertUnwindSafe(job));
       })
